@@ -988,6 +988,17 @@ func ruleAppResponseCacheKey(c *Ctx, p *Prog, rule string) {
 		return
 	}
 	kr, kw := Args(CallOf(rd))[1], Args(CallOf(wr))[1]
+	// a key built only on the GET path: the zero value of the other path never reaches the store
+	if phi, ok := kw.(*ssa.Phi); ok {
+		if vs := PhiValuesAt(phi, wr); len(vs) == 1 {
+			kw = vs[0]
+		}
+	}
+	if phi, ok := kr.(*ssa.Phi); ok {
+		if vs := PhiValuesAt(phi, rd); len(vs) == 1 {
+			kr = vs[0]
+		}
+	}
 	c.Check(rule, "response-cache:lookup-and-store-use-one-key", p, wr.Pos(), SameValue(kr, kw), "the cached response is stored under the very key it is looked up with", "the response cache is written under "+PathOf(kw)+" but read under "+PathOf(kr))
 	// expand the key to the expressions that can produce it
 	var sprintfs []*ssa.Call
